@@ -11,7 +11,7 @@ use serde_json::json;
 use tls_parser::nom::error::ErrorKind;
 use tls_parser::*;
 
-pub const RULE: &str = "raw/encrypted parsers: complete sweep of 256 content types x 65536 declared lengths at n=5+L (and n=5, n=5+L+7: all types in thorough, 8 types in quick), all 65536 versions, every prefix length 0..5+L+1 for boundary and random L; plaintext parser: same framing sweeps over all 256 types x boundary/random lengths with generated valid payloads, random payloads, every prefix of generated records and the 'complete record whose content wants more bytes' family. distinct_nontrivial = distinct (family, parser, type class, length class, available class, outcome) tuples";
+pub const RULE: &str = "raw/encrypted parsers: complete sweep of 256 content types x 65536 declared lengths at n=5+L (and n=5, n=5+L+7: all types in thorough, 8 types in quick), all 65536 versions, every prefix length 0..5+L+1 for boundary and random L, complete records followed by 64 KiB .. 192 KiB of trailing bytes; plaintext parser: same framing sweeps over all 256 types x boundary/random lengths with generated valid payloads, random payloads, every prefix of generated records and the 'complete record whose content wants more bytes' family. distinct_nontrivial = distinct (family, parser, type class, length class, available class, outcome) tuples";
 pub const ASSUMPTIONS: &[&str] = &[
     "Needed value while fewer than 5 header bytes are available is not judged",
     "address of an empty remainder / empty payload is not judged (length is)",
@@ -155,6 +155,7 @@ pub fn run(ctx: &mut Ctx) {
     ctx.floor("versions", 65536 * 3);
     ctx.floor("prefix.calls", 100_000);
     ctx.floor("content-wants-more", 2_000);
+    ctx.floor("long-trailing", 1_500);
 
     // --------------------------------------------- sweep: types x lengths (raw + encrypted)
     // idx = content type; each shard owns whole types
@@ -289,6 +290,40 @@ pub fn run(ctx: &mut Ctx) {
         }
         if ctx.wants_sample() {
             ctx.sample(json!({"type": t, "version": v, "declared_len": l, "prefix_lengths": format!("0..={}", top)}));
+        }
+    });
+
+
+    // --------------------------------------------- complete record followed by MORE than 64 KiB of trailing bytes
+    // (a reader's buffer of back-to-back records): framing must not depend on how much follows
+    let n_long = ctx.tier.pick(600, 6_000);
+    ctx.family("long-trailing", n_long, |ctx, case: &mut Case| {
+        let r = &mut case.rng;
+        let l = match r.below(4) {
+            0 => *r.pick(&[0usize, 1, 2, 255, 256, 16383, 16384, 16639, 16640]),
+            _ => r.usize(0, 16640),
+        };
+        let extra = *r.pick(&[65531usize, 65535, 65536, 65537, 65536 + 5, 70000, 131072, 131071, 196613]) + r.usize(0, 3);
+        let t = *r.pick(&[0x14u8, 0x15, 0x16, 0x17, 0x18, 0x42]);
+        let v = r.u16b();
+        let mut buf = vec![0u8; 5 + l + extra];
+        r.fill(&mut buf[..(5 + l + 64).min(5 + l + extra)]);
+        buf[0] = t;
+        buf[1..3].copy_from_slice(&v.to_be_bytes());
+        buf[3..5].copy_from_slice(&(l as u16).to_be_bytes());
+        if t == 0x15 {
+            // make the plaintext content valid: alerts
+        }
+        for p in [P::Raw, P::Enc, P::Plain] {
+            let input = &buf[..];
+            if let Some(o) = ctx.guarded("record parser", &input[..(5 + l).min(64)], || call(p, input)) {
+                ctx.eval();
+                ctx.count("long-trailing");
+                ctx.shape(&("long", p, lc(l), extra >> 16, o.out.class()));
+                if let Some(rule) = judge(p, t, v, l, input, &o) {
+                    report(ctx, p, t, v, l, &input[..(5 + l + 16).min(input.len())], &o, rule);
+                }
+            }
         }
     });
 
